@@ -108,6 +108,7 @@ Section Transparent.
     rewrite (oracle_entity_body rq r reps Hr) in Hc.
     unfold collect, with_cc in Hc. cbn [rs_err rs_body rs_status rs_cc] in Hc.
     change (400 <=? 200) with false in Hc. cbv iota in Hc.
+    match type of Hc with (if negb (valid_numbers ?j) then _ else _) = _ => destruct (negb (valid_numbers j)); [discriminate|] end.
     set (errs := flat_map (fun rep => snd (answer (rq_header rq) (rq_footer rq) rep)) (rq_reps rq)) in *.
     destruct errs as [|e0 errs'] eqn:Herrs.
     2:{ unfold errors_member in Hc. cbn in Hc. discriminate. }
@@ -255,6 +256,7 @@ Section Stored.
     destruct (rs_body res) as [| |resp] eqn:Eb; try discriminate.
     { destruct (400 <=? rs_status res); discriminate. }
     destruct (400 <=? rs_status res) eqn:Est; [discriminate|].
+    destruct (negb (valid_numbers resp)); [discriminate|].
     assert (Hne : resp_has_errors res = false).
     { unfold resp_has_errors. rewrite Eb. destruct (get_loc [PName k_errors] resp) as [[| | | |[|]|]|]; try reflexivity. discriminate. }
     assert (Hc' : match ttl (rs_cc res) default_ttl with
